@@ -83,7 +83,9 @@ func c19Pmax() int {
 
 func c19Enc(flavour int) {
 	tag := c01Tag()
-	payload := nondetBytes("payload", c19Pmax())
+	payload := nondetBytes("payload", 16386)
+	// every length up to Pmax, plus the lengths around the 1->2 and 2->3 byte length-prefix boundaries
+	verifAssume(len(payload) <= c19Pmax() || (len(payload) >= 126 && len(payload) <= 130) || len(payload) >= 16382)
 	n := verifConcretize(len(payload))
 	payload = payload[:n]
 	fail := nondetBool("fail")
@@ -117,7 +119,7 @@ func c19Enc(flavour int) {
 	}
 	verifAssert(err == nil, "encoding a marshalable message succeeds")
 	e.EncodeRaw([]byte{0xA5})
-	want := make([]byte, 0, 300)
+	want := make([]byte, 0, 16500)
 	want = append(want, pre...)
 	want = protowire.AppendTag(want, protowire.Number(tag), protowire.BytesType)
 	want = protowire.AppendVarint(want, uint64(len(ref)))
